@@ -120,6 +120,7 @@ pub fn run(ctx: &Ctx) {
         blocks.push(Block::new(u_long_runs(40), grid(&[R], 3), "r x 3x3 thresholds"));
         blocks.push(Block::new(u_count_gaps(), grid(&[R], 3), "r x 3x3 thresholds"));
         blocks.push(Block::new(u_nested_rep(), grid(&[R], 3), "r x 3x3 thresholds"));
+        blocks.push(Block::new(u_long_units(), grid(&[R], 3), "r x 3x3 thresholds"));
         blocks.push(Block::new(crate::props::c05::u_rep_single(&["a", "b"], 9), grid(&[0, X, I], 3), "NO r: {{}, x, i} x 3x3 thresholds (thresholds alone must not switch the conversion on)"));
         blocks.push(Block::new(u_kind_triples(), vec![Cfg::new(0), Cfg::new(R), Cfg::with(R, 1, 2), Cfg::with(R | X, 2, 1)], "{}, r, r(1,2), r+x(2,1)"));
     }
